@@ -46,7 +46,7 @@ var parseChain = map[string]bool{
 func init() {
 	register(&propertySpec{
 		ID: "C01", Fixtures: []string{"FMTCONST", "EXTCUT", "GLOB"}, NeedCG: true, Quick: cfgAMD, Thorough: cfgAll,
-		Explanation: "Decides the structural conditions PAR2 repair rests on, for every path of the code: the only failure of reconstruction - a singular or under-determined system - is propagated as an error through every frame from the row reduction up to par2.Repair (ERRFLOW on the reconstruct chain); Repair returns nil only after every buffer it wrote matched the archive's 16k-hash and MD5, and a mismatch returns an error (WGUARD with error returns); writer and reader agree on the coder constructor, on its dimensions being the lengths of the very slices handed to it (the parity table is indexed by exponent), on slice cutting/padding and on the checksum functions (PAIR); every recovery block accepted as a parity shard has the slice size the coder's equal-length precondition needs (SHLEN); per-file damage flags are written to the record Repair reads, not to a copy (DEADST/LOCALCOPY); intact files are recognised with the full per-file predicate (SKIPOK); expected and found slice locations accumulate, so repeated slice contents do not consume recovery blocks (ACCUM); the coder workers partition the slice correctly for every goroutine count (RACE); Repair declares success only through Decoder.Repair (ENTRY-SEQ); the file writer replaces whole files (EFF write-impl). Round-3 additions: after a data file has been read, no return skips the slice search or the two file-level checks (MUSTPASS); elementary row operations cover the whole row of the matrix they touch, also of the wider augmented matrix (ROWCOVER); every surviving recovery block is a candidate row - a nil shard is skipped, it does not end the scan (FILTER). Later additions: format strings, extension cuts and index-path prefixes are literal (FMTCONST, EXTCUT, BASECUT); the checksum map returns exactly m[crc][md5(data)] (GETKEYS); no write follows a failed reconstruction and the not-enough error needs a missing slice (NOWRITE, NEEDSLICE); the file reader returns the OS error itself, which the missing-file test needs (ERRIDENT); no value is copied into a like-typed field of another name (FIELDCROSS); deep comparisons compare like with like (DEEPEQ); a volume file's blocks are used only after its main packet's slice size and file-id sets matched the index file's (VOLCONS); volume discovery lists literally and completely (GLOB, GLOBCALL); the slice search covers every offset and its rolling checksum stays coupled to the scan position (SCANALL, ROLLSCAN, WINTAB - the clauses of C16).",
+		Explanation: "Decides the structural conditions PAR2 repair rests on, for every path of the code: the only failure of reconstruction - a singular or under-determined system - is propagated as an error through every frame from the row reduction up to par2.Repair (ERRFLOW on the reconstruct chain); Repair returns nil only after every buffer it wrote matched the archive's 16k-hash and MD5, and a mismatch returns an error (WGUARD with error returns); writer and reader agree on the coder constructor, on its dimensions being the lengths of the very slices handed to it (the parity table is indexed by exponent), on slice cutting/padding and on the checksum functions (PAIR); every recovery block accepted as a parity shard has the slice size the coder's equal-length precondition needs (SHLEN); per-file damage flags are written to the record Repair reads, not to a copy (DEADST/LOCALCOPY); intact files are recognised with the full per-file predicate (SKIPOK); expected and found slice locations accumulate, so repeated slice contents do not consume recovery blocks (ACCUM); the coder workers partition the slice correctly for every goroutine count (RACE); Repair declares success only through Decoder.Repair (ENTRY-SEQ); the file writer replaces whole files (EFF write-impl). Round-3 additions: after a data file has been read, no return skips the slice search or the two file-level checks (MUSTPASS); elementary row operations cover the whole row of the matrix they touch, also of the wider augmented matrix (ROWCOVER); every surviving recovery block is a candidate row - a nil shard is skipped, it does not end the scan (FILTER). Later additions: format strings, extension cuts and index-path prefixes are literal (FMTCONST, EXTCUT, BASECUT); the checksum map returns exactly m[crc][md5(data)] (GETKEYS); no write follows a failed reconstruction and the not-enough error needs a missing slice (NOWRITE, NEEDSLICE); the file reader returns the OS error itself, which the missing-file test needs (ERRIDENT); no value is copied into a like-typed field of another name (FIELDCROSS); deep comparisons compare like with like (DEEPEQ); a volume file's blocks are used only after its main packet's slice size and file-id sets matched the index file's (VOLCONS); volume discovery lists literally and completely (GLOB, GLOBCALL); the slice search covers every offset, its rolling checksum stays coupled to the scan position and padded slices have the requested length (SCANALL, ROLLSCAN, WINTAB, PADCUT - the clauses of C16).",
 		NotDecided:  []string{"that Repair succeeds whenever k blocks survive (matrix algebra, slice search at every offset)", "volume discovery beyond what C06 decides", "the values of the reconstructed bytes"},
 		Run: func(w *World, r *Report, tier string) {
 			guard(r, "PADCUT", func() { rulePADCUT(w, r) })
@@ -85,7 +85,7 @@ func init() {
 
 	register(&propertySpec{
 		ID: "C02", Fixtures: []string{"EFF"}, NeedCG: true, Quick: cfgAMD, Thorough: cfgAll,
-		Explanation: "Decides, for every path of the code (hence every archive state and both double-check settings): which code may mutate the filesystem at all and that the one primitive replaces whole files (EFF E1-E5), that every byte buffer Repair writes is the very buffer whose 16k-hash and MD5 were just compared with the hashes of the archive entry the target path was derived from (WGUARD), that a path is reported iff its write returned nil and reported paths survive to the caller also when Repair fails later (REPORT, REPORT-PROP), that writes are control-dependent on the file having been found damaged (SKIPOK), that Create's output names do not depend on the input names (CREATE-PATHS), and that no function reachable from Verify contains or reaches a write. These are necessary conditions: breaking any of them breaks the property. The protected name a reader stores or checks is the decoded wire name, unaltered (NAMEFID). Later additions: a return reachable from a write does not drop the list of repaired paths (REPORT nil-after-write); the write primitive creates temporaries only beside the target, never under a name derived from it alone, and renames onto the parameter path (EFF write-impl); PAR1 names are sized per UTF-16 unit on both sides (PAIR); no write follows a failed reconstruction (NOWRITE).",
+		Explanation: "Decides, for every path of the code (hence every archive state and both double-check settings): which code may mutate the filesystem at all and that the one primitive replaces whole files (EFF E1-E5), that every byte buffer Repair writes is the very buffer whose 16k-hash and MD5 were just compared with the hashes of the archive entry the target path was derived from (WGUARD), that a path is reported iff its write returned nil and reported paths survive to the caller also when Repair fails later (REPORT, REPORT-PROP), that writes are control-dependent on the file having been found damaged (SKIPOK), that Create's output names do not depend on the input names (CREATE-PATHS), and that no function reachable from Verify contains or reaches a write. These are necessary conditions: breaking any of them breaks the property. The protected name a reader stores or checks is the decoded wire name, unaltered (NAMEFID). Later additions: a return reachable from a write does not drop the list of repaired paths (REPORT nil-after-write); the write primitive creates temporaries only beside the target, never under a name derived from it alone, and renames onto the parameter path (EFF write-impl); PAR1 names are sized per UTF-16 unit on both sides (PAIR); no write follows a failed reconstruction (NOWRITE); every expected and every found slice location is recorded, so an intact file with repeated slice contents is recognised as intact and not rewritten (ACCUM).",
 		NotDecided:  []string{"byte equality with the original beyond MD5/16k-hash equality", "the effect of a torn ioutil.WriteFile", "correctness of the reconstruction arithmetic"},
 		Run: func(w *World, r *Report, tier string) {
 			guard(r, "ACCUM", func() { ruleACCUM(w, r) })
@@ -136,7 +136,7 @@ func init() {
 
 	register(&propertySpec{
 		ID: "C04", Fixtures: []string{"EXTCUT", "FMTCONST"}, NeedCG: true, Quick: cfgAMD, Thorough: cfgAll,
-		Explanation: "Decides the structural conditions of the PAR1 round trip: encoder and decoder construct the same coder - reedsolomon.New(len(fileData), parity, WithPAR1Matrix()) - (PAIR); a data file counts as usable only after both hashes matched its entry, a parity volume only with verified control hash, the index volume's set hash and the volume number of its file name, and the probing loop covers exactly the volume numbers 1..max (GATE); the counts are incremented on the right edges and the verdict predicates equal the stated table (DECIDE); the coder's too-few-shards / singular error reaches the caller unchanged, where the classifier compares it by identity (ERRFLOW on the PAR1 chain, PAIR-ERRTYPE); the padding length is shown non-negative before make() (MKLEN); the full parity check runs only when all files are usable, names are sized per UTF-16 code unit, and verify/repair declare success only through the decoder (GATE, PAIR, ENTRY-SEQ); the file writer replaces whole files (EFF write-impl). Later additions: extension and prefix cuts by length (EXTCUT, BASECUT); no branch on the decoded name (NAMESYM); only saved entries become shards (SAVEDONLY); the caller's volume count is kept (OPTKEEP); the shard size comes from the first volume found, not from volume 1 (SIZESENT); volume n carries parity row n-1 on both sides (PAR1VOL); every input path reaches the encoder (ALLINPUTS); hash fields are not crossed (FIELDCROSS); the reader returns the OS error itself (ERRIDENT); written buffers matched their entry and intact files are skipped (WGUARD, SKIPOK).",
+		Explanation: "Decides the structural conditions of the PAR1 round trip: encoder and decoder construct the same coder - reedsolomon.New(len(fileData), parity, WithPAR1Matrix()) - (PAIR); a data file counts as usable only after both hashes matched its entry, a parity volume only with verified control hash, the index volume's set hash and the volume number of its file name, and the probing loop covers exactly the volume numbers 1..max (GATE); the counts are incremented on the right edges and the verdict predicates equal the stated table (DECIDE); the coder's too-few-shards / singular error reaches the caller unchanged, where the classifier compares it by identity (ERRFLOW on the PAR1 chain, PAIR-ERRTYPE); the padding length is shown non-negative before make() (MKLEN); the full parity check runs only when all files are usable, names are sized per UTF-16 code unit, and verify/repair declare success only through the decoder (GATE, PAIR, ENTRY-SEQ); the file writer replaces whole files (EFF write-impl). Later additions: extension and prefix cuts by length (EXTCUT, BASECUT); no branch on the decoded name (NAMESYM); only saved entries become shards (SAVEDONLY); the caller's volume count is kept (OPTKEEP); the shard size comes from the first volume found, not from volume 1 (SIZESENT); volume n carries parity row n-1 on both sides (PAR1VOL); every input path reaches the encoder (ALLINPUTS); volume names are built with a constant format (FMTCONST); hash fields are not crossed (FIELDCROSS); the reader returns the OS error itself (ERRIDENT); written buffers matched their entry and intact files are skipped (WGUARD, SKIPOK).",
 		NotDecided:  []string{"the matrix algebra inside klauspost/reedsolomon", "the range of volume numbers probed and padding arithmetic as values", "UTF-16 name handling beyond using unicode/utf16 on both sides (C10)"},
 		Run: func(w *World, r *Report, tier string) {
 			guard(r, "FMTCONST", func() { ruleFMTCONST(w, r) })
@@ -302,7 +302,7 @@ func init() {
 
 	register(&propertySpec{
 		ID: "C10", Fixtures: []string{"FMTCONST"}, NeedCG: true, Quick: cfgAMD, Thorough: cfgAll,
-		Explanation: "Compares the PAR1 writer and reader with tables transcribed from the PAR 1.0 specification: header and entry layouts, identification string, version (low 32 bits only on the reader - the high half is the generator id), file list offset 0x60, control hash over bytes from 0x20 on both sides, status bit 0, the 16 KiB prefix, little-endian only (CONST par1); names go through unicode/utf16 on both sides and the PAR1 matrix option is used on both sides (PAIR); the set hash and the data shards cover saved entries only, and a slice that is a filtered image of the entry list is never used to index the unfiltered list (GATE, IDXDOM); table lookups on header fields stay in range (RANGE). Later additions: extension/prefix cuts (EXTCUT, BASECUT); no branch on the decoded name (NAMESYM); saved entries only (SAVEDONLY); header fields are stored before the header is written (HDRFIELDS); the requested volume count is kept (OPTKEEP); volume n carries parity row n-1 in header, file name, reader table and shard position (PAR1VOL); immutability of the entry list (IMMUT); the writer replaces whole files (EFF write-impl).",
+		Explanation: "Compares the PAR1 writer and reader with tables transcribed from the PAR 1.0 specification: header and entry layouts, identification string, version (low 32 bits only on the reader - the high half is the generator id), file list offset 0x60, control hash over bytes from 0x20 on both sides, status bit 0, the 16 KiB prefix, little-endian only (CONST par1); names go through unicode/utf16 on both sides and the PAR1 matrix option is used on both sides (PAIR); the set hash and the data shards cover saved entries only, and a slice that is a filtered image of the entry list is never used to index the unfiltered list (GATE, IDXDOM); table lookups on header fields stay in range (RANGE). Later additions: extension/prefix cuts (EXTCUT, BASECUT); no branch on the decoded name (NAMESYM); saved entries only (SAVEDONLY); header fields are stored before the header is written (HDRFIELDS); the requested volume count is kept (OPTKEEP); volume n carries parity row n-1 in header, file name, reader table and shard position (PAR1VOL); volume names are built with a constant format (FMTCONST); the file counts are pure counters over the saved entries' slots (DECIDE counts); immutability of the entry list (IMMUT); the writer replaces whole files (EFF write-impl).",
 		NotDecided:  []string{"the parity byte values (GF(2^8) arithmetic in klauspost/reedsolomon)"},
 		Run: func(w *World, r *Report, tier string) {
 			guard(r, "DECIDE", func() { ruleDECIDECounts(w, r, map[string]bool{"par1": true}) })
@@ -376,7 +376,7 @@ func init() {
 
 	register(&propertySpec{
 		ID: "C13", Fixtures: []string{"BUFNEXT"}, NeedCG: true, Quick: cfgAMD32, Thorough: cfgAll,
-		Explanation: "Decides necessary conditions for 'corruption never crashes or misleads': every integer that comes from an archive - including the packet length, which no checksum covers - is bounded before it is converted, used as a size, as a slice bound or as a divisor, and bytes from Buffer.Next are length-checked before indexing (WIRE, per GOARCH); nil-able packet pointers are checked before use (NILF); allocation lengths that are differences are shown non-negative (MKLEN); table lookups on header fields stay in range (RANGE); everything accepted lies behind the packet MD5 / control hash / set id gates, so bit flips stop there (GATE); parse errors are propagated, never turned into results (ERRFLOW on the parsing functions). Nil checks that detect a missing packet can actually fire (NILLIVE); a slice collected by appends is indexed with a constant only under a lower bound on its length (NONEMPTY); the coder has a row for every index of the exponent-indexed parity table (PAIR decoder dims). Later additions: a packet with an empty checksum list is rejected (IFSCPAIRS); reslicing to h is preceded by h <= len or cap (SLICECAP); the slice-record table has one element per checksum pair (SHARDTAB); nothing is allocated from a declared size before it was compared with data held (ALLOCBOUND); the reader returns the OS error itself (ERRIDENT); no write after a failed reconstruction (NOWRITE); the write primitive is whole-file (EFF write-impl).",
+		Explanation: "Decides necessary conditions for 'corruption never crashes or misleads': every integer that comes from an archive - including the packet length, which no checksum covers - is bounded before it is converted, used as a size, as a slice bound or as a divisor, and bytes from Buffer.Next are length-checked before indexing (WIRE, per GOARCH); nil-able packet pointers are checked before use (NILF); allocation lengths that are differences are shown non-negative (MKLEN); table lookups on header fields stay in range (RANGE); everything accepted lies behind the packet MD5 / control hash / set id gates, so bit flips stop there (GATE); parse errors are propagated, never turned into results (ERRFLOW on the parsing functions). Nil checks that detect a missing packet can actually fire (NILLIVE); a slice collected by appends is indexed with a constant only under a lower bound on its length (NONEMPTY); the coder has a row for every index of the exponent-indexed parity table (PAIR decoder dims). Later additions: a packet with an empty checksum list is rejected (IFSCPAIRS); reslicing to h is preceded by h <= len or cap (SLICECAP); the slice-record table has one element per checksum pair (SHARDTAB); nothing is allocated from a declared size before it was compared with data held (ALLOCBOUND); the reader returns the OS error itself (ERRIDENT); no write after a failed reconstruction (NOWRITE); the write primitive is whole-file (EFF write-impl); a path is reported and decoder state updated only after its write succeeded (REPORT, POSTWRITE).",
 		NotDecided:  []string{"full panic freedom (the compiler leaves 60+ bounds checks unproven in the readers; relational reasoning)", "termination of every loop", "crash prefixes of Create as histories"},
 		Run: func(w *World, r *Report, tier string) {
 			guard(r, "POSTWRITE", func() { rulePOSTWRITE(w, r) })
@@ -442,7 +442,7 @@ func init() {
 
 	register(&propertySpec{
 		ID: "C16", NeedCG: true, Quick: cfgAMD, Thorough: cfgAll,
-		Explanation: "Decides the structural conditions that finding slices at every offset rests on - not the checksum algebra. In par2.fillShardInfos the search looks at data[j : j+sliceByteCount] (padded) for the scan position j, advances by one byte exactly where the lookup was empty and by one slice exactly where it was not, starts at 0 and is left only when j has reached len(data) (ROLLSCAN R1/R2, SCANALL); a rolled checksum is used only in an iteration that follows a one-byte advance, is rolled from the previous window's checksum with data[j-1] leaving and the padded slice's last byte entering, by a window made for sliceByteCount, and every other iteration computes the full CRC of the same slice; the checksum looked up belongs to the slice looked up (ROLLSCAN R3/R4); the window's 256-entry table is written at every index (WINTAB); the search is run on the very bytes read from the file, on every path (MUSTPASS); the lookup returns exactly the set filed under (crc, md5(slice)) (GETKEYS); expected and found locations accumulate, so a slice content found once is credited to every place it is expected (ACCUM); a slice's data is recorded only under a non-empty lookup of that very slice (GATE G7); writer and reader cut and pad slices with the same helper (PAIR slicing); every slice record of a file has an element for every checksum pair (SHARDTAB).",
+		Explanation: "Decides the structural conditions that finding slices at every offset rests on - not the checksum algebra. In par2.fillShardInfos the search looks at data[j : j+sliceByteCount] (padded) for the scan position j, advances by one byte exactly where the lookup was empty and by one slice exactly where it was not, starts at 0 and is left only when j has reached len(data) (ROLLSCAN R1/R2, SCANALL); a rolled checksum is used only in an iteration that follows a one-byte advance, is rolled from the previous window's checksum with data[j-1] leaving and the padded slice's last byte entering, by a window made for sliceByteCount, and every other iteration computes the full CRC of the same slice; the checksum looked up belongs to the slice looked up (ROLLSCAN R3/R4); the window's 256-entry table is written at every index (WINTAB); the search is run on the very bytes read from the file, on every path (MUSTPASS); a padded slice is exactly end-start bytes long at every offset (PADCUT); without recovery blocks 'not enough' is reported only if a slice is really missing (NEEDSLICE); the lookup returns exactly the set filed under (crc, md5(slice)) (GETKEYS); expected and found locations accumulate, so a slice content found once is credited to every place it is expected (ACCUM); a slice's data is recorded only under a non-empty lookup of that very slice (GATE G7); writer and reader cut and pad slices with the same helper (PAIR slicing); every slice record of a file has an element for every checksum pair (SHARDTAB).",
 		NotDecided:  []string{"the rolling CRC32 algebra: that update() returns the CRC of the shifted window (table values, the mask constant)", "that a slice overlapping an edit is the only thing lost (counting argument over offsets)", "the behaviour for slice sizes below 4 (newCRC32Window panics)"},
 		Run: func(w *World, r *Report, tier string) {
 			guard(r, "NEEDSLICE", func() { ruleNEEDSLICE(w, r) })
@@ -528,8 +528,8 @@ func init() {
 	})
 
 	register(&propertySpec{
-		ID: "C20", Fixtures: []string{"GLOB", "EFF"}, NeedCG: true, Quick: cfgAMD, Thorough: cfgAll,
-		Explanation: "Decides the exit-status mapping of cmd/par.main on its control-flow graph with no-return inference and a small abstract interpreter for the helpers: after each library call no path with a non-nil error reaches status 0 and every status there is a known non-zero constant; verify's success side exits with processRepairChecker(result counts); the repair error of each format reaches that format's classifier before any exit and the classifier's true edge exits 2; formats are selected by path.Ext; usage errors exit 3; main cannot fall off its end (CLI 1-6). processRepairChecker and the verdict predicates are evaluated exhaustively over their finite comparison domain against the table in the property (DECIDE). The type the PAR2 classifier asserts is exactly the type ReconstructData returns on the not-enough-parity edge (PAIR-ERRTYPE). Volume discovery returns every matching directory entry, so 'possible' is judged on all recovery files present (GLOB). The library operations declare success only through the decoder (ENTRY-SEQ) and relative data paths are made absolute against the current directory with filepath.Abs (DETERM D-d). The PAR1 double check verifies shards completed by Reconstruct, parity included (PAIR reconstruct-then-verify). Later additions: flag sets use ContinueOnError (CLI 7); the reader returns the OS error itself (ERRIDENT); not-enough needs a missing slice (NEEDSLICE); PAR1 repair without any parity volume reports too few shards (PAR1NOPAR); 'repaired' presupposes that the bytes were written: whole-file write primitive, no dropped write error, reported iff written (EFF write-impl, ERRFLOW, REPORT); PAR1 usability gates (GATE).",
+		ID: "C20", Fixtures: []string{"GLOB", "EFF", "DIVZERO"}, NeedCG: true, Quick: cfgAMD, Thorough: cfgAll,
+		Explanation: "Decides the exit-status mapping of cmd/par.main on its control-flow graph with no-return inference and a small abstract interpreter for the helpers: after each library call no path with a non-nil error reaches status 0 and every status there is a known non-zero constant; verify's success side exits with processRepairChecker(result counts); the repair error of each format reaches that format's classifier before any exit and the classifier's true edge exits 2; formats are selected by path.Ext; usage errors exit 3; main cannot fall off its end (CLI 1-6). processRepairChecker and the verdict predicates are evaluated exhaustively over their finite comparison domain against the table in the property (DECIDE). The type the PAR2 classifier asserts is exactly the type ReconstructData returns on the not-enough-parity edge (PAIR-ERRTYPE). Volume discovery returns every matching directory entry, so 'possible' is judged on all recovery files present (GLOB). The library operations declare success only through the decoder (ENTRY-SEQ) and relative data paths are made absolute against the current directory with filepath.Abs (DETERM D-d). The PAR1 double check verifies shards completed by Reconstruct, parity included (PAIR reconstruct-then-verify). Later additions: flag sets use ContinueOnError (CLI 7); the reader returns the OS error itself (ERRIDENT); not-enough needs a missing slice (NEEDSLICE); PAR1 repair without any parity volume reports too few shards (PAR1NOPAR); 'repaired' presupposes that the bytes were written: whole-file write primitive, no dropped write error, reported iff written (EFF write-impl, ERRFLOW, REPORT); PAR1 usability gates (GATE); no division in cmd/par by a count that can be zero - a panic would exit with status 2 (DIVZERO).",
 		NotDecided:  []string{"which library error arises in which archive state (e.g. PAR2 'no parity shards' is an unclassified error)", "flag parsing semantics of package flag", "resolution of relative paths by the OS"},
 		Run: func(w *World, r *Report, tier string) {
 			guard(r, "DIVZERO", func() { ruleDIVZERO(w, r, "cmd/par") })
